@@ -69,7 +69,7 @@ Deviations(v) == Cardinality({k \in DOMAIN Default : v[k] # Default[k]})
 -----------------------------------------------------------------------------
 \* generated moduli: distinct primes of exactly the requested sizes, 1 modulo the root order
 GenOK(e) ==
-  IF e.err THEN e.mustfail
+  IF e.err THEN e.mustfail \/ e.mayfail
   ELSE /\ ~e.mustfail /\ e.distinct /\ Len(e.got) = Len(e.req)
        /\ \A i \in 1..Len(e.req) : e.got[i][1] = e.req[i] /\ e.got[i][2] = 1 /\ e.got[i][3] = 1
 
